@@ -21,23 +21,29 @@ Fixpoint list_eqb {X} (eqb : X -> X -> bool) (a b : list X) : bool :=
 
 Definition atom_is (s : string) (a : list N) : bool := list_eqb N.eqb (sym s) a.
 
-Definition S (s : string) : sexp := A (sym s).
+Definition Sy (s : string) : sexp := A (sym s).
 
 (* ---- decimal integers ---- *)
-Fixpoint digits_fuel (fuel : nat) (n : Z) (acc : list N) : list N :=
-  match fuel with
-  | O => acc
-  | Datatypes.S f =>
-      let d := Z.to_N (n mod 10) in
-      let acc' := (48 + d)%N :: acc in
-      if n / 10 =? 0 then acc' else digits_fuel f (n / 10) acc'
+(* binary -> decimal by repeated doubling of a little-endian digit list (linear in
+   bits x digits; Z.div on big numbers is far too slow in extracted code) *)
+Fixpoint dbl (l : list N) (c : N) : list N :=
+  match l with
+  | [] => if (c =? 0)%N then [] else [c]
+  | d :: r => let x := (2 * d + c)%N in
+              if (x <? 10)%N then x :: dbl r 0 else (x - 10)%N :: dbl r 1
+  end.
+
+Fixpoint pos_dec_le (p : positive) : list N :=
+  match p with
+  | xH => [1%N]
+  | xO q => dbl (pos_dec_le q) 0
+  | xI q => dbl (pos_dec_le q) 1
   end.
 
 Definition digits_of_nonneg (n : Z) : list N :=
   match n with
-  | Z0 => [48%N]
-  | Zpos p => digits_fuel (Datatypes.S (Pos.size_nat p)) n []
-  | Zneg _ => [48%N]
+  | Zpos p => rev (List.map (fun d => (48 + d)%N) (pos_dec_le p))
+  | _ => [48%N]
   end.
 
 Definition dec_of_Z (z : Z) : list N :=
@@ -130,28 +136,28 @@ Definition getPair {X Y} (f : sexp -> option X) (g : sexp -> option Y) (s : sexp
   | _ => None
   end.
 
-Definition BA (b : bool) : sexp := if b then S "t" else S "f".
+Definition BA (b : bool) : sexp := if b then Sy "t" else Sy "f".
 Definition ZL (l : list Z) : sexp := L (List.map ZA l).
 
 Definition exn_sexp (e : exn) : sexp :=
   match e with
-  | DRead n => L [S "DRead"; ZA n]
-  | DFileSize => S "DFileSize" | DContent => S "DContent" | DIsDir => S "DIsDir"
-  | DNotDir => S "DNotDir" | DMetainfo => S "DMetainfo" | DBdecode => S "DBdecode"
-  | DMagnet => S "DMagnet" | DURL => S "DURL" | DPieceSize => S "DPieceSize"
-  | DPath => S "DPath" | DCommonPath => S "DCommonPath" | DWrite => S "DWrite"
-  | DValue => S "DValue"
-  | IValue => S "IValue" | IIndex => S "IIndex" | IKey => S "IKey" | IType => S "IType"
-  | IAssert => S "IAssert" | IOverflow => S "IOverflow" | IRecursion => S "IRecursion"
-  | IRuntime => S "IRuntime" | IZeroDiv => S "IZeroDiv" | IMemory => S "IMemory"
-  | IAttr => S "IAttr" | IBinascii => S "IBinascii" | IUnicode => S "IUnicode"
-  | IOther => S "IOther"
+  | DRead n => L [Sy "DRead"; ZA n]
+  | DFileSize => Sy "DFileSize" | DContent => Sy "DContent" | DIsDir => Sy "DIsDir"
+  | DNotDir => Sy "DNotDir" | DMetainfo => Sy "DMetainfo" | DBdecode => Sy "DBdecode"
+  | DMagnet => Sy "DMagnet" | DURL => Sy "DURL" | DPieceSize => Sy "DPieceSize"
+  | DPath => Sy "DPath" | DCommonPath => Sy "DCommonPath" | DWrite => Sy "DWrite"
+  | DValue => Sy "DValue"
+  | IValue => Sy "IValue" | IIndex => Sy "IIndex" | IKey => Sy "IKey" | IType => Sy "IType"
+  | IAssert => Sy "IAssert" | IOverflow => Sy "IOverflow" | IRecursion => Sy "IRecursion"
+  | IRuntime => Sy "IRuntime" | IZeroDiv => Sy "IZeroDiv" | IMemory => Sy "IMemory"
+  | IAttr => Sy "IAttr" | IBinascii => Sy "IBinascii" | IUnicode => Sy "IUnicode"
+  | IOther => Sy "IOther"
   end.
 
 Definition res_sexp {X} (f : X -> sexp) (r : res X) : sexp :=
   match r with
-  | Ok x => L [S "ok"; f x]
-  | Err e => L [S "err"; exn_sexp e]
+  | Ok x => L [Sy "ok"; f x]
+  | Err e => L [Sy "err"; exn_sexp e]
   end.
 
-Definition bad_request : sexp := L [S "bad-request"].
+Definition bad_request : sexp := L [Sy "bad-request"].
